@@ -155,7 +155,7 @@ pub fn eval(case: &Case) -> Verdict {
                     refsc::Replay::Rejected => {
                         v.label("trace_not_replayable");
                     }
-                    refsc::Replay::Inconclusive => {}
+                    refsc::Replay::Inconclusive | refsc::Replay::Stale => {}
                 }
             }
             if r.hook_max as usize > bound {
